@@ -211,6 +211,9 @@ var c01Tmpls = []c01Tmpl{
 	{"(let ((m (sorted-map \"k\" a))) (list (get m \"k\") (get (assoc m \"k\" b) \"k\") (get m \"k\")))", func(a, b, c int) string {
 		return "'(" + sI(a) + " " + sI(b) + " " + sI(a) + ")"
 	}, nil},
+	{"(let* ((m0 (sorted-map 'x a)) (m1 (dissoc m0 'y)) (m2 (assoc m0 'x a))) (assoc! m1 'z b) (dissoc! m2 'x) (list (length (keys m0)) (length (keys m1)) (length (keys m2)) (get m0 'x)))", func(a, b, c int) string {
+		return "'(1 2 0 " + sI(a) + ")"
+	}, nil},
 	{"((lambda (x &optional y) (list x y)) a)", func(a, b, c int) string { return "'(" + sI(a) + " ())" }, nil},
 	{"(apply + a (list b c))", func(a, b, c int) string { return sI(a + b + c) }, nil},
 	{"'(a b)", func(a, b, c int) string { return "'(a b)" }, nil},
